@@ -70,6 +70,16 @@ pub fn run() -> i32 {
             if !th && si > 1 && k != "11" { continue; }
             let base_args: Vec<String> = ["-k", k, "-s", s, "-m", "15", "-t", t, "-v", "0"].iter().map(|x| x.to_string()).collect();
             jobs.push((si, samples.clone(), false, base_args.clone()));
+            if k == "11" {
+                // a queue smaller than every contig: oversized items are admitted one at a time
+                let mut a = base_args.clone();
+                a.push("--queue-capacity".into());
+                a.push("200".into());
+                jobs.push((si, samples.clone(), false, a.clone()));
+                a.push("-l".into());
+                a.push("2".into());
+                jobs.push((si, samples.clone(), true, a));
+            }
             for l in ["2", "3"] {
                 let mut a = base_args.clone();
                 a.push("-l".into());
